@@ -18,6 +18,7 @@ Model for property C12: disk -> archive -> disk reproduces the tree.
 Core Lean only (the driver links this file).
 -/
 import LA.Model.Lnk
+import LA.Gen.DiskModes
 namespace LA.Tree
 
 /-- One path component: its bytes (never 0 or '/'). -/
@@ -179,6 +180,49 @@ def linkify (st : Lnk.Strategy) (es : List Entry) : List Entry :=
   let d := Lnk.drainLoop r.1 (List.replicate es.length 0)
   (r.2 ++ d.2).filterMap (fromEnt es)
 
+/-- Path as the C string `archive_entry_pathname` ("." for the root, components joined by '/'). -/
+def joined (p : Path) : List Nat := 46 :: p.flatMap fun c => 47 :: c
+
+/-! ### cpio archives: link handling of writer and reader (spec level)
+
+The cpio writers store no link name and a body only for an entry whose size is set
+and positive; `record_hardlink` in archive_read_support_format_cpio.c turns every
+entry after the first with the same inode number and `nlink > 1` into a hard link
+to the first one's name (the body, if any, stays with the entry). -/
+
+def emptyContent : Content := { size := 0, seed := 0, segs := [] }
+
+/-- What the cpio writer keeps of an entry the resolver handed over. -/
+def Entry.cpioWritten (e : Entry) : Entry :=
+  let sz := if e.sizeSet && e.ftype == .reg then e.size else 0
+  { e with hardlink := none, sizeSet := true, size := sz,
+           payload := match e.payload with
+             | .data c => if sz == 0 then .data emptyContent else .data c
+             -- hard link name and symlink target share one field of the entry
+             -- (archive_entry_copy_hardlink overwrites it): the writer stores the link name as target
+             | .target t => match e.hardlink with
+               | some q => .target (joined q)
+               | none => .target t
+             | x => x }
+
+/-- `record_hardlink` over the archive, `tbl` = (ino, first name, links left). -/
+def cpioReadLinks : List (Nat × Path × Nat) → List Entry → List Entry
+  | _, [] => []
+  | tbl, e :: rest =>
+    -- (a directory is recorded as well, but its inode number is never seen again; the model gives
+    -- directories no inode numbers, so they are skipped here)
+    if e.nlink ≤ 1 || e.ftype == .dir then e :: cpioReadLinks tbl rest else
+    match tbl.find? (fun r => r.1 == e.ino) with
+    | some (_, name, left) =>
+      let tbl' := if left ≤ 1 then tbl.filter (fun r => r.1 != e.ino)
+                  else tbl.map fun r => if r.1 == e.ino then (r.1, r.2.1, left - 1) else r
+      { e with hardlink := some name } :: cpioReadLinks tbl' rest
+    | none => e :: cpioReadLinks ((e.ino, e.path, e.nlink - 1) :: tbl) rest
+
+/-- Disk reader -> resolver (cpio strategy) -> cpio writer -> cpio reader. -/
+def cpioArchive (st : Lnk.Strategy) (es : List Entry) : List Entry :=
+  cpioReadLinks [] ((linkify st es).map Entry.cpioWritten)
+
 /-- tar/read.c `read_archive` in list mode prints `archive_entry_pathname` of every header. -/
 def listing (es : List Entry) : List Path := es.map (·.path)
 
@@ -267,8 +311,9 @@ inductive St | ok | failed
 
 def andNot (a b : Nat) : Nat := a ^^^ (a &&& b)
 
-def minimumDirMode : Nat := 0o700
-def maximumDirMode : Nat := 0o775
+/-- `MINIMUM_DIR_MODE`, `MAXIMUM_DIR_MODE` (extracted from archive_write_disk_posix.c). -/
+def minimumDirMode : Nat := LA.Gen.DiskModes.minimumDirMode
+def maximumDirMode : Nat := LA.Gen.DiskModes.maximumDirMode
 
 /-- `a->mode` after `_archive_write_disk_header`'s option handling (permission bits). -/
 def Opts.entryMode (o : Opts) (mode : Nat) : Nat :=
@@ -287,9 +332,6 @@ def kindOf (e : Entry) : Kind :=
   | .lnk, _ => .lnk []
   | .fifo, _ => .fifo
   | _, _ => .other
-
-/-- Path as the C string `archive_entry_pathname` ("." for the root, components joined by '/'). -/
-def joined (p : Path) : List Nat := 46 :: p.flatMap fun c => 47 :: c
 
 /-- One entry: `_archive_write_disk_header` → `restore_entry` → `create_filesystem_object`,
 data, `_archive_write_disk_finish_entry`.  Branches that overwrite an existing
@@ -312,6 +354,8 @@ def restoreEntry (o : Opts) (w : WD) (e : Entry) : WD × St :=
         -- new cpio / pax: the link entry carries the body; open(O_TRUNC), write, then metadata
         match n.kind, e.payload with
         | .reg _, .data c =>
+          -- open(a->name, O_WRONLY | O_TRUNC): a non-root caller needs the owner write bit
+          if !o.root && n.mode &&& 0o200 == 0 then ({ w with fs := fs1 }, .failed) else
           let fs2 := fs1.update n.ino fun x =>
             { x with kind := .reg c, mode := o.finalFileMode amode,
                      mtime := if o.time then some e.mtime else none }
